@@ -403,7 +403,7 @@ def p_c04(facts, rep, tier):
         "that file starts, and that fsync lies on every success path to Meta::write (O2); Meta::write syncs the meta page (O4) and everything destructive (hash-table writeout, WAL truncation, rollback-log pruning) starts only after it returned Ok (O3); hash-table page "
         "writes are drained and the file fsynced before the WAL is truncated, in post_meta (O5) and in recovery (O6); a rollback record is "
         "written and fsynced, and a newly created segment followed by a directory fsync, before commit returns Ok (O9); pruning orders unlink -> "
-        "dir fsync -> head truncation -> fsync (O10); store creation syncs every file and the directory (O11). Removing any of these fsyncs makes "
+        "dir fsync -> head truncation -> fsync (O10); store creation syncs every file and the directory (O11); a WAL blob is only written into an empty WAL file - a truncation to 0 dominates the write, or post_meta and the redo always leave the file empty (O17). Removing any of these fsyncs makes "
         "an obligation underivable. Device semantics and drain-count arithmetic are assumed."
     )
     ctx = sync_ctx(facts)
@@ -419,6 +419,7 @@ def p_c04(facts, rep, tier):
     syncorder.o3(ctx, rep)
     rep.floor("O2 pre-meta writes", n2, 4)
     rep.floor("O5/O6 truncate_wal barriers examined", n56, 3)
+    rep.floor("O17 WAL writes examined", syncorder.o17(ctx, rep), 1)
     rep.floor("O9 rollback append obligations", n9, 3)
     rep.floor("O11 create obligations", n11, 4)
     _sync_common(rep, ctx)
